@@ -123,6 +123,11 @@ def project_derived(dispatcher: Dispatcher) -> dict:
     }
 
 
+MEMOISED = {"current_time", "available_operations", "raw_ready_operations", "unscheduled_operations",
+            "scheduled_operations", "available_machines", "available_jobs", "completed_operations",
+            "uncompleted_operations", "ongoing_operations"}
+
+
 def project_query_value(name: str, value):
     """A query result -> abstract value (lists keep the order the code
     returned; the specification decides whether order matters)."""
@@ -140,7 +145,13 @@ def project_cache(dispatcher: Dispatcher) -> list:
     """The memoisation dictionary, as [[name, value], ...] sorted by name.
     (Private attribute, read only: the specification models it.)"""
     c = dispatcher._cache  # pylint: disable=protected-access
-    return [[k, project_query_value(k, c[k])] for k in sorted(c)]
+    return [[k, project_query_value(k, c[k])] for k in sorted(map(str, c)) if k in MEMOISED]
+
+
+def project_cache_other(dispatcher: Dispatcher) -> list:
+    """Names of memoised entries the specification does not know."""
+    c = dispatcher._cache  # pylint: disable=protected-access
+    return sorted(str(k) for k in c if str(k) not in MEMOISED)
 
 
 def instance_fingerprint(instance: JobShopInstance):
